@@ -80,7 +80,7 @@ impl Hasher for SimHashState {
     #[inline]
     fn finish(&self) -> u64 {
         ctx::callback(Site::Hash);
-        finish_value(self.seed, self.mode, self.acc)
+        ctx::chaos_hash(self.acc, finish_value(self.seed, self.mode, self.acc))
     }
     #[inline]
     fn write(&mut self, bytes: &[u8]) {
